@@ -135,6 +135,10 @@ func judgeFidelity(caseID string, f *meta.VerifFSM, witness func() interface{}) 
 	before, after, n, err := roundTrip(f)
 	r.Count("a_values_checked", 1)
 	r.Count("a_snapshot_bytes", int64(n))
+	if nt {
+		r.Count("a_values_nontrivial", 1)
+		r.Nontrivial("a/" + ev8(before))
+	}
 	if err != nil {
 		r.Violation("C07/snapshot-fidelity/restore-failed", caseID, fmt.Sprintf("snapshot of a metadata value does not restore: %v", err), witness())
 		return
@@ -143,11 +147,6 @@ func judgeFidelity(caseID string, f *meta.VerifFSM, witness func() interface{}) 
 		sec, la, lb := diffSection(before, after)
 		r.Violation("C07/snapshot-fidelity/"+sec, caseID,
 			fmt.Sprintf("Restore(Persist(Snapshot(x))) != x: %q became %q", la, lb), witness())
-		return
-	}
-	if nt {
-		r.Count("a_values_nontrivial", 1)
-		r.Nontrivial("a/" + ev8(before))
 	}
 }
 
